@@ -567,6 +567,71 @@ func deepInputs() {
 	ctx.Add("deep_inputs", 3)
 }
 
+// amplification: valid inputs of moderate size whose cost could grow faster
+// than their length: thousands of events of one kind spread over two tracks
+// with interleaved ticks (whatever the reader collects per kind - tempo
+// changes, signatures - arrives out of order), and track counts around 65536
+// under headers that declare none, fewer or exactly that many.
+func amplification() {
+	judge := func(name string, data []byte) {
+		ctx.Eval()
+		ctx.Add("amplification_inputs", 1)
+		o := read(data)
+		sig, what := "", ""
+		switch {
+		case o.hung:
+			sig, what = "hang:amplification:"+name, "ReadFrom keeps reading after the input is exhausted"
+		case o.c.Panicked:
+			sig, what = o.c.Sig+":amplification:"+name, "ReadFrom panicked: "+o.c.Value
+		case o.val == nil && o.err == nil:
+			sig, what = "result:nil-nil:amplification", "neither value nor error"
+		case o.alloc > allocBound(len(data)):
+			if ex := exactAlloc(data); ex > allocBound(len(data)) {
+				sig, what = "alloc:amplification:"+name, fmt.Sprintf("ReadFrom allocated %d bytes for %d bytes of input (%d per byte)", ex, len(data), ex/uint64(len(data)))
+			}
+		}
+		if sig != "" {
+			ctx.Violation(sig, map[string]interface{}{"kind": "amplification", "input_name": name, "input_len": len(data), "what": what})
+		}
+		ctx.NontrivialN(1)
+	}
+	kinds := []struct {
+		name string
+		ev   func(i int) []byte
+	}{
+		{"tempo", func(i int) []byte { return []byte{0xFF, 0x51, 0x03, 0x07, byte(i >> 7 & 0x7F), byte(i & 0x7F)} }},
+		{"time-signature", func(i int) []byte { return []byte{0xFF, 0x58, 0x04, byte(1 + i%12), 2, 24, 8} }},
+		{"key-signature", func(i int) []byte { return []byte{0xFF, 0x59, 0x02, byte(i % 7), byte(i % 2)} }},
+		{"text", func(i int) []byte { return []byte{0xFF, 0x01, 0x01, byte('a' + i%26)} }},
+		{"sysex", func(i int) []byte { return []byte{0xF0, 0x02, byte(i % 128), 0xF7} }},
+		{"program-change", func(i int) []byte { return []byte{0xC0 + byte(i%16), byte(i % 128)} }},
+	}
+	for _, k := range kinds {
+		for _, n := range []int{2000, 8000} {
+			var t0, t1 []byte
+			for i := 0; i < n; i++ {
+				t0 = append(append(t0, 0x02), k.ev(i)...)   // ticks 2, 4, 6 ...
+				t1 = append(append(t1, 0x02), k.ev(i+1)...) // the same ticks again, in the next track
+			}
+			t0 = append(t0, 0x00, 0xFF, 0x2F, 0x00)
+			t1 = append([]byte{0x01}, t1[1:]...) // ... shifted by one: 1, 3, 5 ...
+			t1 = append(t1, 0x00, 0xFF, 0x2F, 0x00)
+			data := append(append(hdr(1, 2, 96), refsmf.Chunk("MTrk", t0)...), refsmf.Chunk("MTrk", t1)...)
+			judge(fmt.Sprintf("%s-x%d-in-two-tracks", k.name, n), data)
+		}
+	}
+	trk := refsmf.Chunk("MTrk", []byte{0x00, 0xFF, 0x2F, 0x00})
+	for _, declared := range []uint16{0, 1, 65535} {
+		for _, chunks := range []int{65535, 65536, 65537, 70000} {
+			data := hdr(1, declared, 96)
+			for i := 0; i < chunks; i++ {
+				data = append(data, trk...)
+			}
+			judge(fmt.Sprintf("%d-track-chunks-under-a-header-declaring-%d", chunks, declared), data)
+		}
+	}
+}
+
 // twoPrefixes: two proper prefixes (of different files, cut inside a channel
 // message, inside a meta payload and at an event boundary) are read by two
 // threads that are switched inside Read calls, every schedule with at most two
@@ -649,6 +714,7 @@ func main() {
 	ctx.Jobs("header-fields", 16, func(j int) { headerFields(j, 16) })
 	ctx.Jobs("substitutions", 32, func(j int) { substitutions(j, 32) })
 	ctx.Jobs("deep-inputs", 1, func(int) { deepInputs() })
+	ctx.Jobs("amplification", 1, func(int) { amplification() })
 	ctx.Jobs("two-prefixes", 1, func(int) { twoPrefixes() })
 	nal := len(smfgen.Tokens()) * 4
 	ctx.Jobs("truncations", nal, func(j int) { truncationFamily(j) })
@@ -670,6 +736,10 @@ func replay() {
 			return
 		}
 		truncations(file, exp, "replay")
+		ctx.Finish("replay")
+	}
+	if m["kind"] == "amplification" {
+		amplification()
 		ctx.Finish("replay")
 	}
 	if m["kind"] == "two-prefixes" {
